@@ -367,6 +367,54 @@ def extract_function_crlf_blank_line(mod, req, lines):
                if 0 < k <= len(lines))
 
 
+# ------------------------------------------------------------------ C07 (text preservation)
+
+EXPRESSION_TYPES = PARTS + ('atom testlist_star_expr testlist test lambdef lambdef_nocond keyword name number '
+                            'string fstring').split()
+
+
+def extract_function_range_starts_mid_statement(mod, req):
+    """statement-range mode (the covering node of the range is not an expression) and the range starts
+    on a later line than the first selected statement: _suite_nodes_to_string calls
+    _split_prefix_at(first_leaf, pos[0] - 1) with a line count <= 0, `lines[:-0]` is empty, so the
+    whole prefix of the statement (blank / comment lines in front of it) moves into the new function"""
+    sel = _selection(mod, req)
+    if sel is None or req.get('kind') != 'extract_function':
+        return False
+    start = mod.get_leaf_for_position(sel[0], include_prefixes=True)
+    if start is None:
+        return False
+    if start.end_pos == sel[0] and start.get_next_leaf() is not None:
+        start = start.get_next_leaf()
+    if start.type == 'operator' or (start.type == 'keyword' and start.value not in ('None', 'True', 'False')):
+        start = start.parent
+    end = mod.get_leaf_for_position(sel[1], include_prefixes=True)
+    if end is None:
+        return False
+    if end.start_pos > sel[1] and end.get_previous_leaf() is not None:
+        end = end.get_previous_leaf()
+    parent = start
+    while parent.parent is not None and parent.end_pos < end.end_pos:
+        parent = parent.parent
+    if parent.type in EXPRESSION_TYPES:
+        return False                    # expression mode
+    stmt = start
+    while stmt.parent is not None and stmt.parent.type not in ('suite', 'file_input'):
+        stmt = stmt.parent
+    return stmt.parent is not None and stmt.start_pos[0] < sel[0][0]
+
+
+def c07_shape_of(src, request):
+    """root-cause shape of a text-preservation failure (C07 oracle-bytes)"""
+    import parso
+    try:
+        if extract_function_range_starts_mid_statement(parso.parse(src), request):
+            return 'extract-function-range-starts-mid-statement'
+    except Exception:
+        pass
+    return 'unclassified'
+
+
 # ------------------------------------------------------------------ the table
 
 SYNTAX = ('SyntaxError', 'IndentationError', 'TabError')
